@@ -115,7 +115,7 @@ theorem rf_incrFresh_cfg (E : Externals) (dbk : SqlVal) (raw : Bool) (now delta 
   · rfl
   · rename_i t1 c hst
     have := (store_keep hst).2.1
-    split <;> (simp only; rw [rf_cullW_cfg]; exact this)
+    split <;> (simp only; rw [rf_cullW_cfg]; first | exact this | (show (t1.regCreated c.file).cfg = t.cfg; rw [regCreated_cfg]; exact this))
 
 theorem rf_incr_cfg (s : Cache) (E : Externals) (now : Int) (k : PyVal) (delta : Int) (dflt : Option Int) :
     (s.incr E now k delta dflt).1.cfg = s.cfg := by
